@@ -124,6 +124,7 @@ Dflt == [kind |-> "simple", n |-> 5, namePat |-> "custom", cidPat |-> "ident", n
        encPat |-> "range", encK |-> 2, nSup |-> 0, wPat |-> "ints", strPat |-> "custom", pad |-> 0,
        intSel |-> 20, realSel |-> 1, ulPat |-> "def", ulSel |-> 1, fmPat |-> "def", privPat |-> "typ",
        shapePat |-> "mixed", bulk |-> 3,
+       ppad |-> -1,                   \* >= 0: the private dictionaries are sized for the Subrs sweep (PrivSweep)
        x |-> <<"none", 0, 0, 0>>]     \* an override applied to the expanded font (mode "edges")
 
 (* ------------------------------ expansion ------------------------------ *)
@@ -305,7 +306,28 @@ Blues(pat) == CASE pat = "none"  -> <<>>
                 [] pat = "max14" -> <<-300, -290, 0, 10, 500, 510, 700, 710, 1000, 1010, 1500, 1510, 16000, 16383>>
                 [] pat = "bnd"   -> <<-108, -1, 107, 1238, 2370, 1239, 107, 10107>>
 
+(* Private DICT size sweep.  The writer stores in every Private DICT the offset of the (shared, final) Subrs
+   INDEX relative to that DICT: for the last DICT this is the DICT's own length, a number that is itself part of
+   the DICT.  The offset crosses the DICT integer size classes at 107/108 (and 1131/1132) when the DICT is long
+   enough; then the layout loop has to notice a change of the LAST section offset only.  Blue values are stored
+   as deltas: 24 numbers (14 BlueValues, 10 OtherBlues) of three bytes each give the longest DICT; q of them
+   are shortened to one byte (one of them to two bytes when q is odd), so the DICT length runs through
+   Max, Max-1, ..., Max-24 in steps of one byte. *)
+SweepDeltas(cnt, q) ==     \* cnt deltas; the last q2 = q div 2 of them one byte, one more two bytes if q is odd
+  [i \in 1..cnt |-> IF i > cnt - (q \div 2) THEN 100
+                    ELSE IF i = cnt - (q \div 2) /\ q % 2 = 1 THEN 500 ELSE 1200]
+Cum(ds, start) == [i \in 1..Len(ds) |-> start + FoldLeft(LAMBDA a, k : a + ds[k], 0, [k \in 1..i |-> k])]
+PrivSweep(q) ==
+  LET qo == IF q > 20 THEN 20 ELSE q            \* OtherBlues shrink first (10 numbers = 20 steps), then BlueValues
+      qb == q - qo
+  IN [blues |-> Cum(SweepDeltas(14, qb), 0),
+      other |-> Cum(SweepDeltas(10, qo), -21000),
+      blueScale |-> <<5, -1>>, blueShift |-> 1131, blueFuzz |-> 108,
+      stdHW |-> <<123456789, -5>>, stdVW |-> <<123456789, -8>>, forceBold |-> TRUE,
+      fm |-> <<Z, Z, Z, Z, Z, Z>>]
+
 PrivOf(dd, j) ==   \* private dictionary j (1-based) of descriptor dd
+  IF dd.ppad >= 0 THEN [PrivSweep(dd.ppad) EXCEPT !.fm = IF dd.kind = "cid" THEN FM("def", 1, DefFM) ELSE @] ELSE
   LET s  == dd.intSel + j - 1
       r  == dd.realSel + j - 1
       pp == IF j = 1 THEN dd.privPat
@@ -533,6 +555,12 @@ Sweep == {[Dflt EXCEPT !.kind = IF p \div 100000 = 0 THEN "simple" ELSE "cid",
                        !.nfd = Max2(p \div 100000, 1), !.pad = p % 100000, !.intSel = 1 + (p % 2),
                        !.n = 2, !.strPat = "empty", !.encK = 1, !.privPat = "none", !.shapePat = "blank"] : p \in Pads}
 
+\* the Private DICT size sweep on the same minimal fonts (simple, CID-keyed with one and with two font DICTs),
+\* part of every "sweep" run whatever Pads is
+PSweep == {[Dflt EXCEPT !.kind = IF k = 0 THEN "simple" ELSE "cid", !.nfd = Max2(k, 1), !.ppad = q, !.wPat = w,
+                        !.n = 2, !.strPat = "empty", !.encK = 1, !.shapePat = "blank"] :
+             k \in 0..2, q \in 0..34, w \in {"eq", "d1131"}}
+
 Big == {[Dflt EXCEPT !.kind = k, !.n = n, !.nfd = IF k = "cid" THEN 3 ELSE 1, !.namePat = "mixed",
                    !.cidPat = IF 3 * n <= 65535 THEN "sparse" ELSE IF n % 2 = 0 THEN "desc" ELSE "top", !.fdPat = IF n % 2 = 0 THEN "alt" ELSE "blocks",
                    !.encPat = "scatter", !.encK = 256, !.nSup = 3, !.wPat = "mixed", !.shapePat = "blank"] :
@@ -570,7 +598,7 @@ Init ==
        [] Mode = "maxima" -> d \in Maxima /\ stage = "done"
        [] Mode = "edges" -> d \in Edges /\ stage = "done"
        [] Mode = "ofat"  -> d \in {x \in Ofat : Usable(x)} /\ stage = "done"
-       [] Mode = "sweep" -> d \in Sweep /\ stage = "done"
+       [] Mode = "sweep" -> d \in Sweep \cup PSweep /\ stage = "done"
        [] Mode = "big"   -> d \in {x \in Big : Usable(x)} /\ stage = "done"
        [] Mode = "rand"  -> d = Dflt /\ stage = "s1"
 
